@@ -916,8 +916,10 @@ void deindent_line(token  * line) {
 				line->child->prev = NULL;
 				line->child->tail = t->tail;
 
+				// Everything in front of the new first child is gone (this may be
+				// more than the indent if a quote marker was pruned earlier)
+				line->len -= (line->child->start - line->start);
 				line->start = line->child->start;
-				line->len -= t->len;
 			}
 
 			token_free(t);
